@@ -1,12 +1,17 @@
 #!/usr/bin/env python3
-"""tools/mutate.py <file-relative-to-/repo> <old> <new> -- <check args...>
+"""(operates on the scratch worktree $MUT_WT, default /tmp/wt-main, never on /repo)
+tools/mutate.py <file-relative-to-/repo> <old> <new> -- <check args...>
 Applies a textual mutation to /repo (first occurrence unless COUNT given), runs ./check, reverts."""
 import subprocess, sys, os
 args = sys.argv[1:]
 sep = args.index("--")
 f, old, new = args[:3]
 nth = int(os.environ.get("NTH", "1"))
-path = os.path.join("/repo", f)
+WT = os.environ.get("MUT_WT", "/tmp/wt-main")
+if not os.path.exists(WT):
+    subprocess.run(["git", "-C", "/repo", "worktree", "add", "--detach", WT, "HEAD", "-q"], check=True)
+os.environ["VERIF_REPO"] = WT
+path = os.path.join(WT, f)
 src = open(path).read()
 parts = src.split(old)
 if len(parts) <= nth:
@@ -22,4 +27,4 @@ try:
         print("\n".join(l[:300] for l in keep[:12]))
 finally:
     open(path, "w").write(src)
-    subprocess.run("git -C /repo status --short", shell=True)
+    subprocess.run(f"git -C {WT} status --short", shell=True)
